@@ -339,8 +339,11 @@ class SystemLoss:
     """abstract SystemLossODE / SystemLossPDE built through the repository's constructor"""
 
     def __init__(self, E, eq_type, net_kind='PINN', unknowns=('a', 'b'), equations=('e1', 'e2'), d=2, terms=('dyn', 'ic'),
-                 weights='scalar', eq_keys=('nu',), m_res=None, derivative_keys_dict=None, reverse_dicts=False):
+                 weights='scalar', eq_keys=('nu',), m_res=None, derivative_keys_dict=None, reverse_dicts=False, specs=None):
+        """specs: {unknown: dict(m_u=.., bc_dim=.., obs_slice=..)} per-unknown output count, boundary component selection and
+        observed slice (handed to the constructor as omega_boundary_dim_dict / obs_slice_dict)"""
         self.E, self.eq_type, self.net_kind, self.d = E, eq_type, net_kind, d
+        self.specs = {k: dict((specs or {}).get(k, {})) for k in unknowns}
         rset = set(reverse_dicts) if isinstance(reverse_dicts, (set, tuple, list, frozenset)) else \
             ({'u', 'dyn', 'weights', 'specs'} if reverse_dicts else set())
 
@@ -349,7 +352,7 @@ class SystemLoss:
         self._rv = rv
         self.unknowns, self.equations, self.terms = tuple(unknowns), tuple(equations), set(terms)
         d_net = 0 if eq_type == 'ODE' else d
-        self.u_dict = {k: Net(k, net_kind, 1, eq_type, d_net) for k in unknowns}
+        self.u_dict = {k: Net(k, net_kind, self.specs[k].get('m_u', 1), eq_type, d_net) for k in unknowns}
         self.params = E.params_dict({k: k for k in unknowns}, {k: Pm(k) for k in eq_keys})
         self.m_res = m_res or {e: 1 + (i % 2) for i, e in enumerate(equations)}
         self.dyn = {e: E.user_dynamic_loss(eq_type, self.m_res[e], name=f'R_{e}', multi=list(unknowns)) for e in equations} \
@@ -384,13 +387,14 @@ class SystemLoss:
         self.singles = {}
         single_terms = tuple(t for t in self.terms if t != 'dyn')
         for k in unknowns:
-            self.singles[k] = SingleLoss(E, eq_type, net_kind, d=d, m_u=1, terms=single_terms, eq_keys=eq_keys, net_name=k,
-                                         unit_weights=True)
+            self.singles[k] = self._single(k, single_terms, eq_keys)
         kw = {}
         if eq_type == 'ODE':
             cls = E.cls(E.mod_ode, 'SystemLossODE')
             if 'ic' in self.terms:
                 kw['initial_condition_dict'] = {k: self.singles[k].loss.fields['initial_condition'] for k in unknowns}
+            if specs and 'obs' in self.terms:
+                kw['obs_slice_dict'] = {k: self.specs[k].get('obs_slice') for k in unknowns}
         else:
             cls = E.cls(E.mod_pde, 'SystemLossPDE')
             f = lambda name: {k: self.singles[k].loss.fields.get(name) for k in unknowns}
@@ -402,11 +406,26 @@ class SystemLoss:
                 kw['norm_int_length_dict'] = f('norm_int_length')
             if 'ic' in self.terms and eq_type == 'nonstatio_PDE':
                 kw['initial_condition_fun_dict'] = f('initial_condition_fun')
+            if specs and 'bc' in self.terms:
+                kw['omega_boundary_dim_dict'] = {k: self.specs[k].get('bc_dim') for k in unknowns}
+            if specs and 'obs' in self.terms:
+                kw['obs_slice_dict'] = {k: self.specs[k].get('obs_slice') for k in unknowns}
         if derivative_keys_dict is not None:
             kw['derivative_keys_dict'] = derivative_keys_dict
         kw = {k: (rv(v, 'specs') if isinstance(v, dict) else v) for k, v in kw.items()}
         self.loss = cls(u_dict=rv(self.u_dict, 'u'), dynamic_loss_dict=rv(self.dyn, 'dyn'), loss_weights=lw,
                         params_dict=self.params, **kw)
+
+    def _single(self, k, single_terms, eq_keys):
+        sp = self.specs[k]
+        return SingleLoss(self.E, self.eq_type, self.net_kind, d=self.d, m_u=sp.get('m_u', 1), terms=single_terms, eq_keys=eq_keys,
+                          net_name=k, unit_weights=True, bc_dim=sp.get('bc_dim'), obs_slice=sp.get('obs_slice'))
+
+    def _n_obs(self, k):
+        sp = self.specs[k]
+        m = sp.get('m_u', 1)
+        sl = sp.get('obs_slice')
+        return len(list(range(m))[sl]) if isinstance(sl, slice) else m
 
     def batch(self, param_keys=()):
         E = self.E
@@ -414,7 +433,7 @@ class SystemLoss:
         obs = None
         if 'obs' in self.terms:
             rows = "B" if param_keys else "I"
-            obs = {k: E.obs_batch(self.eq_type, self.d, 1, rows=rows, name=f'obs_{k}') for k in self.unknowns}
+            obs = {k: E.obs_batch(self.eq_type, self.d, self._n_obs(k), rows=rows, name=f'obs_{k}') for k in self.unknowns}
         border = 'bc' in self.terms
         # a per-sample parameter batch has one row per collocation row; the border batch must then have the same
         # number of rows for the vmapped boundary functions to be applicable at all
@@ -463,8 +482,7 @@ class SystemLoss:
                 for k in self.unknowns:
                     S = self.singles[k]
                     single_terms = tuple(t for t in self.terms if t != 'dyn')
-                    Sk = SingleLoss(self.E, self.eq_type, self.net_kind, d=self.d, m_u=1, terms=single_terms,
-                                    eq_keys=tuple(self.params.fields['eq_params'].keys()), net_name=k, unit_weights=True)
+                    Sk = self._single(k, single_terms, tuple(self.params.fields['eq_params'].keys()))
                     _, terms = Sk.loss.evaluate(freeze(Sk.params), self._single_batch(k, param_keys))
                     acc = acc + self.wspec[n][0][k] * to_at(terms[n]).data[()]
             out[n] = acc
